@@ -49,7 +49,12 @@ fn main() {
                 "C01" => props::c01::run(tier, seed),
                 "C02" => props::c02::run(tier, seed),
                 "C03" => props::c03::run(tier, seed),
+                "C06" => props::c06::run(tier, seed),
                 "C07" => props::c07::run(tier, seed),
+                "C08" => props::c08::run(tier, seed),
+                "C09" => props::c09::run(tier, seed),
+                "C10" => props::c10::run(tier, seed),
+                "C11" => props::c11::run(tier, seed),
                 other => {
                     eprintln!("unknown property {other}");
                     2
@@ -85,7 +90,12 @@ fn replay(path: &str) -> i32 {
             }
             "C02" => all.extend(props::c02::all_scenarios(tier)),
             "C03" => all.extend(props::c03::all_scenarios(tier)),
+            "C06" => all.extend(props::c06::all_scenarios(tier)),
             "C07" => all.extend(props::c07::all_scenarios(tier)),
+            "C08" => all.extend(props::c08::all_scenarios(tier)),
+            "C09" => all.extend(props::c09::all_scenarios(tier)),
+            "C10" => all.extend(props::c10::all_scenarios(tier)),
+            "C11" => all.extend(props::c11::all_scenarios(tier)),
             _ => {}
         }
     }
